@@ -324,6 +324,42 @@ def run_fixed_shard(spec, res: ShardResult, rng):
 # adaptive stepping
 
 
+def rkf45_replay_explains(log, a, u0, t0, T, tol, final) -> bool:
+    """Alternative-model predicate of known finding F15.
+
+    Reconstruct the accepted steps from the stage log (an attempt is accepted iff the next
+    attempt starts later), replay the textbook Fehlberg 4(5) pair along them and return True
+    iff (i) the observed final state IS that replay to round-off and (ii) every accepted step
+    had an embedded estimate |y5 - y4| <= tolerance.  Then the code realised the scheme and
+    its acceptance rule exactly and the excess over steps x tolerance can only come from the
+    embedded estimate being smaller than the true local error of the propagated 4th-order
+    result (by the relative size O(|a dt|) of the 5th-order result's own error)."""
+    times = np.array([t for t, _ in log])
+    if len(times) == 0 or len(times) % 6:
+        return False
+    groups = times.reshape(-1, 6)
+    starts, dts = groups[:, 0], 4 * (groups[:, 1] - groups[:, 0])
+    accepted = [i for i in range(len(starts)) if i == len(starts) - 1 or starts[i + 1] > starts[i]]
+    if abs(sum(dts[i] for i in accepted) - T) > 1e-9 * max(T, 1.0):
+        return False
+    A = [[], [1 / 4], [3 / 32, 9 / 32], [1932 / 2197, -7200 / 2197, 7296 / 2197], [439 / 216, -8, 3680 / 513, -845 / 4104],
+         [-8 / 27, 2, -3544 / 2565, 1859 / 4104, -11 / 40]]
+    B4 = [25 / 216, 0, 1408 / 2565, 2197 / 4104, -1 / 5, 0]
+    B5 = [16 / 135, 0, 6656 / 12825, 28561 / 56430, -9 / 50, 2 / 55]
+    y = np.array(u0, dtype=float)
+    for i in accepted:
+        h = float(dts[i])
+        k = []
+        for row in A:
+            k.append(h * a * (y + sum(c * kk for c, kk in zip(row, k))))
+        y4 = y + sum(c * kk for c, kk in zip(B4, k))
+        y5 = y + sum(c * kk for c, kk in zip(B5, k))
+        if float(np.abs(y5 - y4).max()) > tol * (1 + 1e-6):
+            return False
+        y = y4
+    return bool(np.abs(y - np.asarray(final, dtype=float)).max() <= 1e-11 * max(1.0, float(np.abs(y).max())))
+
+
 def run_adaptive_shard(spec, res: ShardResult, rng):
     for case_no in range(spec["cases"]):
         solver = ["euler", "runge-kutta"][case_no % 2]
@@ -358,7 +394,7 @@ def run_adaptive_shard(spec, res: ShardResult, rng):
             stats0 = info["solver"].get("dt_statistics") or {}
             zmax = abs(a) * float(stats0.get("max", 0.0))
             mech = None
-            if solver == "runge-kutta" and steps <= 2 and zmax >= 0.4 and err <= 2 * steps * tol:
+            if solver == "runge-kutta" and err <= 2 * steps * tol and rkf45_replay_explains(eq.log, a, u0, t0, T, tol, out.data):
                 mech = "rkf45-single-large-step-underestimates-error"
             res.violation(f"global error {err:.3g} exceeds accepted steps x tolerance = {steps}*{tol:g}", case, mechanism=mech, steps=steps, max_abs_a_dt=zmax)
         res.stat_max("max_global_error_over_steps_tol", err / (steps * tol))
